@@ -1,0 +1,69 @@
+//go:build verif
+
+package ringbuffer
+
+// Contracts checked by /verif/govc (see /verif/DESIGN.md). Comment-only file.
+//
+// Monitor invariant of the queue (holds whenever the mutex is free): the occupied slots
+// are exactly those at distance < count from readIndex, where count is size when the
+// slot at writeIndex is occupied and the distance from readIndex to writeIndex otherwise.
+
+//@ spec rdist(r *RingBuffer, p uint64) uint64 = ite(p >= r.readIndex, p - r.readIndex, r.size - (r.readIndex - p))
+//@ spec rdisti(r *RingBuffer, p int) uint64 = ite(p >= int(r.readIndex), uint64(p) - r.readIndex, r.size - (r.readIndex - uint64(p)))
+//@ spec rcount(r *RingBuffer) uint64 = ite(r.buffer[int(r.writeIndex)] != nil, r.size, rdist(r, r.writeIndex))
+//@ spec rshape(r *RingBuffer) bool = r.size == uint64(len(r.buffer)) && r.size >= 1 && r.size <= 1073741824 && r.readIndex < r.size && r.writeIndex < r.size
+
+//@ typeinv RingBuffer r
+//@   inv[C16] rshape(r)
+//@   inv[C16] !r.closed && r.buffer[int(r.writeIndex)] != nil ==> r.writeIndex == r.readIndex
+//@   inv[C16] !r.closed ==> forall p :: 0 <= p && p < len(r.buffer) ==> ((r.buffer[p] != nil) <==> (rdisti(r, p) < rcount(r)))
+
+//@ func New
+//@   opt u64=nowrap
+//@   requires size >= 1 && size <= 1073741824
+//@   ensures[C16] (err == nil) <==> ((size & (size - 1)) == 0)
+//@   ensures[C16] err == nil ==> ret0 != nil && typeinv(ret0) && !ret0.closed && ret0.size == size && ret0.readIndex == 0 && ret0.writeIndex == 0
+//@   ensures[C16] err == nil ==> forall p :: 0 <= p && p < len(ret0.buffer) ==> ret0.buffer[p] == nil
+//@   modifies fresh
+
+//@ func (r *RingBuffer) Push
+//@   opt u64=nowrap
+//@   opt frame-tag=C16
+//@   requires data != nil
+//@   ensures[C16] !old(r.closed) && old(r.buffer[int(r.writeIndex)]) != nil ==> !ret && r.writeIndex == old(r.writeIndex) && r.buffer[int(r.writeIndex)] == old(r.buffer[int(r.writeIndex)])
+//@   ensures[C16] old(r.buffer[int(r.writeIndex)]) == nil ==> ret && r.buffer[int(old(r.writeIndex))] == data
+//@   ensures[C16] ret ==> r.writeIndex == (old(r.writeIndex) + 1) % r.size
+//@   ensures[C16] forall p :: 0 <= p && p < len(r.buffer) && p != int(old(r.writeIndex)) ==> r.buffer[p] == old(r.buffer[p])
+//@   ensures[C16] r.readIndex == old(r.readIndex) && r.closed == old(r.closed) && r.size == old(r.size)
+//@   modifies r.writeIndex, elems(r.buffer)
+
+//@ func (r *RingBuffer) Close
+//@   opt u64=nowrap
+//@   opt frame-tag=C16
+//@   ensures[C16] r.closed
+//@   ensures[C16] forall p :: 0 <= p && p < len(r.buffer) ==> r.buffer[p] == nil
+//@   ensures[C16] r.readIndex == old(r.readIndex) && r.writeIndex == old(r.writeIndex)
+//@   modifies r.closed, elems(r.buffer)
+//@   loop 1
+//@     invariant i <= r.size && r.closed && rshape(r)
+//@     invariant forall p :: 0 <= p && p < int(i) ==> r.buffer[p] == nil
+//@     decreases int(r.size) - int(i)
+
+//@ func (r *RingBuffer) Reset
+//@   opt u64=nowrap
+//@   opt frame-tag=C16
+//@   ensures[C16] !r.closed && r.readIndex == 0 && r.writeIndex == 0
+//@   ensures[C16] forall p :: 0 <= p && p < len(r.buffer) ==> r.buffer[p] == nil
+//@   modifies r.closed, r.readIndex, r.writeIndex, elems(r.buffer)
+//@   loop 1
+//@     invariant i <= r.size && rshape(r)
+//@     invariant forall p :: 0 <= p && p < int(i) ==> r.buffer[p] == nil
+//@     decreases int(r.size) - int(i)
+
+//@ func (r *RingBuffer) Pull
+//@   opt u64=nowrap
+//@   opt reassume-typeinv-after=sync.Cond.Wait
+//@   ensures[C16] ret1 ==> ret0 != nil
+//@   ensures[C16] !ret1 ==> ret0 == nil && r.closed
+//@   loop 1
+//@     invariant typeinv(r)
